@@ -49,6 +49,9 @@ type world struct {
 	// recipe: a short scripted sequence of mutations aimed at one mechanism of the properties (rule precedence
 	// switch, export flip, mTLS flip); instantiated now and then between the random mutations
 	recipe []func(tp *engine.Tape) mutation
+	// meshOn: this run's history includes mesh configuration reloads (a forced global push each); mesh = current variant
+	meshOn bool
+	mesh   int
 }
 
 var allConfigKinds = []string{
@@ -75,6 +78,7 @@ func newWorld(tp *engine.Tape, kinds []string) *world {
 				wd.kinds = append(wd.kinds, k)
 			}
 		}
+		wd.meshOn = tp.Bool(1, 2, "meshOn")
 	} else {
 		wd.kinds = kinds
 	}
@@ -378,7 +382,7 @@ func (wd *world) genSpec(tp *engine.Tape, kind, ns, name string) config.Spec {
 	case "Telemetry":
 		tl := &telemetry.Telemetry{Selector: pickSelector(tp)}
 		tl.AccessLogging = []*telemetry.AccessLogging{{
-			Providers: []*telemetry.ProviderRef{{Name: "envoy"}},
+			Providers: []*telemetry.ProviderRef{{Name: []string{"envoy", "als"}[tp.Choose(2, "provider")]}},
 			Disabled:  wrapperspb.Bool(tp.Bool(1, 2, "disabled")),
 		}}
 		return tl
@@ -598,6 +602,15 @@ func (wd *world) next(tp *engine.Tape) mutation {
 	wd.seq++
 	if wd.kube != nil && tp.Bool(wd.kube.weight, 10, "kubemut") {
 		return wd.kube.next(tp, wd.seq)
+	}
+	if wd.meshOn && tp.Bool(1, 10, "meshmut") {
+		wd.mesh = (wd.mesh + 1 + tp.Choose(7, "meshvariant")) % 8
+		v := wd.mesh
+		return mutation{kind: "MeshConfig", desc: fmt.Sprintf("mesh configuration reload: variant %d (accessLogFile=%v registryOnly=%v connectTimeout3s=%v)", v, v&1 != 0, v&2 != 0, v&4 != 0),
+			apply: func(inst *wisInstance) error {
+				inst.setMesh(v)
+				return nil
+			}}
 	}
 	kind := wd.kinds[tp.Choose(len(wd.kinds), "kind")]
 	slots := kindSlots(kind)
